@@ -290,7 +290,7 @@ class Encoder:
       if self.canonical:
         tag_items.sort(key=lambda kv: repr(kv[0]))
       tags = g_list([
-          g_pair(self.skey(key), g_list([g_N(i) for i in sorted(self.intern("tag:" + t.__name__) for t in ts)]))
+          g_pair(self.skey(key), g_list([g_N(i) for i in sorted(self.intern("tag:" + nm) for nm in sorted(t.__name__ for t in ts))]))
           for key, ts in tag_items])
       return f"(NBuildable {k} {g_N(self.intern(name))} {args} {tags})", "buildable"
     if isinstance(v, Recorded) or (hasattr(v, "view") and hasattr(v, "fn")):
